@@ -11,5 +11,6 @@ import Rbgp.Policy.ProofsBytes
 import Rbgp.Policy.ProofsEval
 import Rbgp.Policy.ProofsCrud
 import Rbgp.Policy.ProofsCheck
+import Rbgp.Policy.ProofsStored
 import Rbgp.Policy.ProofsD
 import Rbgp.Policy.ProofsDCheck
